@@ -1,10 +1,15 @@
 #!/usr/bin/env python3
 """Operation generator for engine `rbflush` (C04).  All randomness from --seed.
 
-A history is: `new L C`, `term TL TC ORACLE WS PEN SEED` (the harness's grid terminal) or, for about a quarter of the
-histories, `termm TL TC PEN SEED` (the library's own mock terminal, at least as large as the buffer, one-column CHAR code
-points only: a double-width character in its last column makes mtd_print write past the line - known finding), a C03-style drawing program, `flush`, and (often) a second
+A history is: `new L C`, `term TL TC ORACLE WS PEN SEED` (the harness's grid terminal) or, for about a fifth of the
+histories each, `termm TL TC PEN SEED` (the library's own mock terminal, at least as large as the buffer, one-column CHAR code
+points only: a double-width character in its last column makes mtd_print write past the line - known finding) or
+`termx TL TC BUF CAPS PEN SEED` (the library's real xterm driver behind an output buffer of BUF bytes - 0 = none, 1 .. a few
+hundred, mostly far smaller than the runs that are flushed - and a recording output function, whose bytes a VT screen model
+reads; capabilities rgb8 / colon sub-parameters on and off), a C03-style drawing program, `flush`, and (often) a second
 and third round of drawing + `flush` onto the terminal as the previous flush left it.
+CHAR cells carry code points of every UTF-8 length, with the first and last code point of each length (U+7F/U+80 only
+where the sink is the grid driver, which gives a control one column; the mock terminal keeps to a fixed one-column list).
 
 quick / thorough: random drawing programs (every primitive of engine `rb`) on buffers 1x1 .. 6x12, biased towards what
 the flush has to get right: texts mixing single-width, double-width and zero-width characters; later operations
@@ -21,7 +26,8 @@ content is mostly kept within the screen (by a clip, or by aiming at it; runs en
 column and on its last line, an erase reaching the screen's edge with SKIP cells beyond) - the hypothesis of
 flush_spec_screen - and sometimes reaches beyond it (only completion and the reset are claimed then).
 exhaustive: every program of <= 3 operations over a reduced alphabet on a 2x6 buffer x {oracle stay, oracle move} x
-{direct, write_str} and two terminals smaller than the buffer (grid 2x4, mock terminal 1x5), then `flush`.
+{direct, write_str}, two terminals smaller than the buffer (grid 2x4, mock terminal 1x5) and the xterm driver behind a 4-byte
+output buffer, then `flush`.
 Prints one JSON line: the input distribution actually produced.
 """
 import argparse, random, json, itertools, collections
@@ -51,13 +57,22 @@ for ch in COMBINING: WIDTH[ch] = 0
 for ch in WIDE: WIDTH[ch] = 2
 
 
+# what the flush writes to: the harness's grid driver, the library's mock terminal, or the real xterm driver (+ VT model)
+SINK = ["grid"]
+XCOLON = [False]     # xterm sink: the driver uses ':' sub-parameters
+
+
 def gen_text():
     """(bytes, list of (column, width) of the characters of width >= 1) - the latter only for well-formed texts."""
     k = rng.random()
     if k < 0.04:
         textkinds["malformed"] += 1
-        return rng.choice([b"ab\x01c", b"\x7f", b"a\xc2\x80b", b"\x80", b"ab\xbf", b"\xe3\x81", b"x\xf0\x9f\x98", b"\xff",
-                           b"a\x00bc", b"\x00", b"\xc3\x41z", b"\xc2\x9f", b"ab\xe2\x00\x80", b"\x1b[m"]), []
+        bad = [b"ab\x01c", b"\x7f", b"a\xc2\x80b", b"\x80", b"ab\xbf", b"\xe3\x81", b"x\xf0\x9f\x98", b"\xff",
+               b"a\x00bc", b"\x00", b"\xc3\x41z", b"\xc2\x9f", b"ab\xe2\x00\x80", b"\x1b[m"]
+        if SINK[0] == "x":
+            # C3 41 is counted as one character by next_utf8 (C07 known finding lax_continuation); a VT reads U+FFFD + A
+            bad.remove(b"\xc3\x41z")
+        return rng.choice(bad), []
     if k < 0.07:
         textkinds["empty"] += 1
         return b"", []
@@ -109,21 +124,36 @@ def gen_pen(allow_null=True):
     if rng.random() < p / 2: items.append(f"af={rng.choice([-1, 0, 1, 5, 10])}")
     if rng.random() < p / 2: items.append(f"blink={rng.randint(0, 1)}")
     if rng.random() < p / 2: items.append(f"sizepos={rng.randint(0, 3)}")
+    if SINK[0] == "x":
+        # what SGR cannot say (C10 known findings sizepos_small, under_curly_no_colon) is kept out of the xterm sink
+        items = [("sizepos=" + str(rng.choice([0, 2, 3]))) if it == "sizepos=1" else it for it in items]
+        if not XCOLON[0]:
+            items = [("u=" + str(rng.choice([0, 1, 2]))) if it == "u=3" else it for it in items]
     return ",".join(items) if items else "-"
 
 
 # code points for char/char_at: overwhelmingly one column wide (the contract of a CHAR cell); rarely not
 CHAR_W1 = [65, 97, 0x23, 0xe9, 0x2500, 0x3a9, 0x10400]
 CHAR_OTHER = [0xff21, 0x301, 0x1f600, 0x200b]
+# one column wide, every UTF-8 length, the first and the last code point of each length
+CHAR_EDGE = [0x20, 0x7e, 0xa0, 0x7ff, 0x800, 0xfffd, 0xffff, 0x10000, 0x10001, 0x10ffff]
+# the last 1-byte and the first 2-byte code point are controls (no width): only where the sink gives them a column
+CHAR_CTRL_EDGE = [0x7f, 0x80]
 
 
 ONLY_W1 = [False]   # histories flushed to the library's mock terminal keep to one-column CHAR code points
 
 
 def gen_cp():
-    if not ONLY_W1[0] and rng.random() < 0.015:
+    if ONLY_W1[0]:
+        return rng.choice(CHAR_W1)
+    r = rng.random()
+    if r < 0.015:
         feat["char_not_width1"] += 1
         return rng.choice(CHAR_OTHER)
+    if r < 0.30:
+        feat["char_utf8_edge"] += 1
+        return rng.choice(CHAR_EDGE + (CHAR_CTRL_EDGE if SINK[0] == "grid" else []))
     return rng.choice(CHAR_W1)
 
 
@@ -286,6 +316,25 @@ def gen_mockterm(L, C):
     return f"termm {tl} {tc} {pen} {rng.randint(0, 9999)}"
 
 
+XBUF_SMALL = [0, 1, 1, 2, 3, 4, 5, 6, 7, 8, 8, 11, 16, 16, 31, 32, 64]
+XBUF_WIDE = [0, 1, 8, 16, 64, 100, 255, 256, 257, 300, 500]
+
+
+def gen_xterm(tl, tc, bufs=XBUF_SMALL):
+    """The real xterm driver behind an output buffer (third configuration); sets the pen filter for the history."""
+    caps = rng.choice([0, 0, 1, 2, 3, 3])
+    SINK[0] = "x"; XCOLON[0] = bool(caps & 2)
+    buf = rng.choice(bufs)
+    pen = "NONE" if rng.random() < 0.3 else gen_pen(allow_null=False)
+    feat["xterm"] += 1
+    feat["xterm_unbuffered" if buf == 0 else "xterm_buffer_le_8" if buf <= 8 else "xterm_buffer_gt_8"] += 1
+    return f"termx {tl} {tc} {buf} {caps} {pen} {rng.randint(0, 9999)}"
+
+
+def sink_done():
+    SINK[0] = "grid"; XCOLON[0] = False; ONLY_W1[0] = False
+
+
 def gen_term(L, C):
     r = rng.random()
     if r < 0.55: tl, tc = L, C
@@ -305,8 +354,17 @@ def random_history():
     L = rng.choice([1, 1, 2, 2, 3, 3, 4, 5, 6]); C = rng.choice([1, 2, 3, 4, 5, 5, 6, 7, 8, 10, 12])
     sizes[f"{L}x{C}"] += 1
     h = Hist(L, C)
-    ONLY_W1[0] = rng.random() < 0.25
-    h.emit(gen_mockterm(L, C) if ONLY_W1[0] else gen_term(L, C))
+    k = rng.random()
+    if k < 0.22:
+        ONLY_W1[0] = True; SINK[0] = "mock"
+        h.emit(gen_mockterm(L, C))
+    elif k < 0.44:
+        r = rng.random()
+        if r < 0.6: tl, tc = L, C
+        else: tl, tc = L + rng.choice([0, 1, 2]), C + rng.choice([0, 1, 3])
+        h.emit(gen_xterm(tl, tc))
+    else:
+        h.emit(gen_term(L, C))
     rounds = rng.choice([1, 1, 2, 2, 3])
     for k in range(rounds):
         if rng.random() < 0.15:
@@ -317,7 +375,7 @@ def random_history():
         h.emit("flush"); h.flushed()
     if rng.random() < 0.1:
         h.emit("getcells")
-    ONLY_W1[0] = False
+    sink_done()
     return h.ops
 
 
@@ -332,12 +390,16 @@ def wide_history():
     h = Hist(L, C)
     tc = C + rng.choice([0, 0, 1, 5])
     oracle = rng.choice([0, 0x7fffffff, rng.getrandbits(31)])
-    pen = "NONE" if rng.random() < 0.4 else gen_pen(allow_null=False)
-    if rng.random() < 0.2:
-        feat["mockterm"] += 1
-        h.emit(f"termm {L} {tc} {pen} {rng.randint(0, 9999)}")
+    k = rng.random()
+    if k < 0.3:
+        h.emit(gen_xterm(L, tc, XBUF_WIDE))
     else:
-        h.emit(f"term {L} {tc} {oracle} {1 if rng.random() < 0.3 else 0} {pen} {rng.randint(0, 9999)}")
+        pen = "NONE" if rng.random() < 0.4 else gen_pen(allow_null=False)
+        if k < 0.45:
+            feat["mockterm"] += 1
+            h.emit(f"termm {L} {tc} {pen} {rng.randint(0, 9999)}")
+        else:
+            h.emit(f"term {L} {tc} {oracle} {1 if rng.random() < 0.3 else 0} {pen} {rng.randint(0, 9999)}")
 
     def long_hline(line):
         c1 = rng.randint(0, 3); c2 = C - 1 - rng.randint(0, 3)
@@ -399,6 +461,7 @@ def wide_history():
     if rng.random() < 0.4:
         long_hline(rng.randint(0, L - 1))
         h.emit("flush")
+    sink_done()
     return h.ops
 
 
@@ -412,12 +475,16 @@ def edge_history():
     feat["edge_history"] += 1
     h = Hist(L, C)
     oracle = rng.choice([0, 0x7fffffff, rng.getrandbits(31)])
-    pen = "NONE" if rng.random() < 0.4 else gen_pen(allow_null=False)
-    if rng.random() < 0.3:
-        feat["mockterm"] += 1
-        h.emit(f"termm {L + rng.choice([0, 0, 1])} {C} {pen} {rng.randint(0, 9999)}")
+    k = rng.random()
+    if k < 0.3:
+        h.emit(gen_xterm(L + rng.choice([0, 0, 1]), C))
     else:
-        h.emit(f"term {L + rng.choice([0, 0, 1])} {C} {oracle} {1 if rng.random() < 0.3 else 0} {pen} {rng.randint(0, 9999)}")
+        pen = "NONE" if rng.random() < 0.4 else gen_pen(allow_null=False)
+        if k < 0.5:
+            feat["mockterm"] += 1
+            h.emit(f"termm {L + rng.choice([0, 0, 1])} {C} {pen} {rng.randint(0, 9999)}")
+        else:
+            h.emit(f"term {L + rng.choice([0, 0, 1])} {C} {oracle} {1 if rng.random() < 0.3 else 0} {pen} {rng.randint(0, 9999)}")
     for line in range(L):
         if rng.random() < 0.25:
             h.emit(f"setpen {gen_pen()}")
@@ -441,6 +508,7 @@ def edge_history():
         elif r < 0.75: h.emit(f"hline {line} {rng.randint(0, C - 1)} {C - 1} {rng.randint(1, 3)} 3"); feat["edge_last_line"] += 1
         elif r < 0.87: h.emit(f"erase_at {line} {rng.randint(0, C - 1)} {C}"); feat["edge_last_erase"] += 1
     h.emit("flush")
+    sink_done()
     return h.ops
 
 
@@ -452,14 +520,20 @@ def small_screen_history():
     L = rng.choice([1, 2, 2, 3, 4, 5]); C = rng.choice([3, 4, 5, 6, 8, 10, 12])
     sizes[f"{L}x{C}"] += 1
     feat["small_screen_history"] += 1
-    mock = rng.random() < 0.4
+    k = rng.random()
+    xt = k < 0.25                   # the xterm sink: a VT screen, cursor movements clamped like the mock terminal's
+    mock = k < 0.6
     tc = max(1, C - rng.choice([1, 1, 2, 3, C // 2]))
     tl = max(1, L - rng.choice([0, 1, 1, 2])) if mock else L + rng.choice([0, 0, 1])
     if mock and tl == L and rng.random() < 0.5: tl = max(1, L - 1)
-    pen = "NONE" if rng.random() < 0.4 else gen_pen(allow_null=False)
     h = Hist(L, C)
     ONLY_W1[0] = True
-    if mock:
+    if xt:
+        h.emit(gen_xterm(tl, tc))
+    pen = "NONE" if rng.random() < 0.4 else gen_pen(allow_null=False)
+    if xt:
+        pass
+    elif mock:
         feat["mockterm"] += 1
         h.emit(f"termm {tl} {tc} {pen} {rng.randint(0, 9999)}")
     else:
@@ -502,7 +576,7 @@ def small_screen_history():
             for _ in range(rng.randint(2, 8)):
                 h.step()
         h.emit("flush"); h.flushed()
-    ONLY_W1[0] = False
+    sink_done()
     return h.ops
 
 
@@ -524,7 +598,8 @@ def exhaustive():
         "mask 0 2 1 1",
     ]
     terms = ["term 2 6 0 0 NONE 1", "term 2 6 2147483647 0 bg=2 2", "term 2 6 0 1 NONE 3", "term 3 8 2147483647 1 fg=3,rv=1 4",
-             "term 2 4 2147483647 0 NONE 5", "termm 1 5 fg=2 6"]   # a terminal smaller than the buffer (grid: columns; mock: lines, too)
+             "term 2 4 2147483647 0 NONE 5", "termm 1 5 fg=2 6",   # a terminal smaller than the buffer (grid: columns; mock: lines, too)
+             "termx 2 6 4 2 bg=1 7"]                               # the real xterm driver, a 4-byte output buffer
     out, n = [], 0
     for term in terms:
         for k in (1, 2, 3):
@@ -543,7 +618,7 @@ lines = []
 info = {}
 if a.tier == "exhaustive":
     lines, n = exhaustive()
-    info = {"histories": n, "exhaustive_bound": "all programs of <= 3 operations over a 13-operation alphabet on a 2x6 buffer x 6 terminal configurations (two of them smaller than the buffer), then flush"}
+    info = {"histories": n, "exhaustive_bound": "all programs of <= 3 operations over a 13-operation alphabet on a 2x6 buffer x 7 terminal configurations (two of them smaller than the buffer, one the real xterm driver behind a 4-byte output buffer), then flush"}
 else:
     N = 1300 if a.tier == "quick" else 8000
     W = 150 if a.tier == "quick" else 600
